@@ -43,6 +43,9 @@ func init() {
 			{ID: "C02.R22", Text: "a session starts from the loaded positions and nothing else: the position writer is called only for acknowledgements and absorptions — Open does not push positions through it, where a late acknowledgement of the previous session would win (same rule as C01.R2)", Run: c01r2},
 			{ID: "C02.R23", Text: "read-only mode survives defaulting: no configured option is rewritten (same rule as C17.R1)", Run: c17r1},
 			{ID: "C02.R24", Text: "a session reads the checkpoints of its own group: the document key is a function of the group name and vBucket id of the call (same rule as C14.R4)", Run: c14r4},
+			{ID: "C02.R25", Text: "what a session asks the server and the store is answered by them, not by a layer in between (a cache of sequence numbers or fail-over logs, a retry with a fallback): every layer over a module interface is a proven pass-through and no collaborator is replaced by a wrapper (same rules as C20.R19 and C20.R20)", Run: func(c *Ctx, id string) { decoratorsTransparent()(c, id); noNewLayers(c, id) }},
+			{ID: "C02.R26", Text: "the auto-reset and stream modes a session is opened under are the configured ones: outside package config the configuration is only read (same rule as C17.R6)", Run: configImmutable},
+			{ID: "C02.R27", Text: "the position requested from the server is the stored one, not one edited on the way: no in-place store to an Offset or SnapshotMarker field (same rules as C06.R3 and C01.R7)", Run: func(c *Ctx, id string) { c06r3(c, id); immutableOffsets(c, id) }},
 			{ID: "C02.R6", Text: "read-only wrapper: Save/Clear perform no call and return nil, Load forwards its parameters; Start wraps the metadata whenever Metadata.ReadOnly and under no other condition", Run: c02r6},
 		},
 	})
@@ -659,6 +662,44 @@ func c02r6(c *Ctx, id string) {
 				for _, r := range *call.Referrers() {
 					if st, isSt := r.(*ssa.Store); isSt && "*"+w.Origin(st.Addr) == "*&"+arg || isSt && w.Origin(st.Addr) == "&"+arg {
 						stored = true
+					}
+				}
+			}
+			// the installation may sit in a selector helper that returns the wrapper (or the store itself): then the
+			// helper's result must replace, at its call sites, the value it was handed
+			if call, isCall := in.(*ssa.Call); isCall && !stored && strings.HasPrefix(arg, "param(") && f.Parent() == nil {
+				returned := false
+				for _, r := range *call.Referrers() {
+					if _, isRet := r.(*ssa.Return); isRet {
+						returned = true
+					}
+				}
+				pi := -1
+				for i, p := range f.Params {
+					if "param("+p.Name()+")" == arg {
+						pi = i
+					}
+				}
+				if returned && pi >= 0 {
+					sites, okSites := 0, 0
+					for _, g := range w.ModFuncs {
+						allInstrs(g, func(x ssa.Instruction) {
+							c2, isC := x.(*ssa.Call)
+							if !isC || c2.Common().StaticCallee() != f || pi >= len(c2.Common().Args) {
+								return
+							}
+							sites++
+							a2 := w.Origin(c2.Common().Args[pi])
+							for _, r := range *c2.Referrers() {
+								if st, isSt := r.(*ssa.Store); isSt && w.Origin(st.Addr) == "&"+a2 {
+									okSites++
+								}
+							}
+						})
+					}
+					if sites > 0 && sites == okSites {
+						stored = true
+						arg = arg + " (helper " + fname(f) + ", whose result replaces what it was handed at every call site)"
 					}
 				}
 			}
